@@ -197,7 +197,7 @@ class LockInfo:
                 if t.get("local") and t.get("resolved") in prog.bodies and not t.get("dyn"):
                     tgt.append(t["resolved"])
                 elif t.get("dyn") or (t.get("resolved") is None and t.get("callee") in prog.trait_impls):
-                    tgt += [im for im in prog.trait_impls.get(t.get("callee"), []) if im in prog.bodies]
+                    tgt += prog.dyn_targets(t)
                 if not (is_unlocked_fair(cs) or cs.name in DETACHED_CONSUMERS):
                     tgt += [c for c in cs.closure_args() if c in prog.bodies]
                 for g in tgt:
